@@ -191,12 +191,3 @@ Definition model_gc_eq : string := "as_ptr==as_ptr".
 (* the ValueError raised by validate_hash_map_key (core.rs) and build_hash_map (vm.rs): prefix ++ display ++ suffix *)
 Definition err_prefix : string := "Cannot use unhashable value '".
 Definition err_suffix : string := "' as HashMap key.".
-Definition model_key_checks : list (string * string) :=
-  [("hash_map_has_key", "validate"); ("hash_map_get", "validate"); ("hash_map_insert", "validate");
-   ("hash_map_remove", "validate"); ("build_hash_map", "has_hash")].
-(* what each native does with the std map after the check *)
-Definition model_native_calls : list (string * string) :=
-  [("hash_map_has_key", "contains_key"); ("hash_map_get", "get.unwrap_or(None)");
-   ("hash_map_insert", "insert.unwrap_or(None)"); ("hash_map_remove", "remove.unwrap_or(None)");
-   ("hash_map_clear", "clear"); ("hash_map_len", "len"); ("hash_map_keys", "keys");
-   ("hash_map_values", "values"); ("hash_map_items", "iter"); ("build_hash_map", "insert")].
